@@ -243,3 +243,160 @@ pub fn mutate_text(s: &str, t: &mut Tape) -> (String, String) {
         }
     }
 }
+
+const TOKENS: &[&str] = &[
+    "->", "<-", "<>", "*", "+", "-", "=", "==", "===", "~", "{", "}", "[", "]", "(", ")", "|", ":", "#", "//", "/*", "*/",
+    "VAR", "CONST", "LIST", "EXTERNAL", "temp", "return", "function", "INCLUDE", "not", "and", "or", "mod", "ref", "else",
+    "DONE", "END", "->->", "TURNS_SINCE", "CHOICE_COUNT", "RANDOM", "LIST_COUNT", "true", "false", "&", "!", "?", ",", ".",
+    "\"", "\\", "<", ">", "<=", ">=", "!=", "&&", "||", "%", "/", "^", "$", "@", "\t", "  ",
+];
+const IDENTS: &[&str] = &["knot", "a", "b", "x", "stitch", "f", "lst", "item", "k1", "12", "_u", "é", "END", "t0"];
+const LITS: &[&str] = &["0", "1", "42", "-3", "2.5", "\"str\"", "2147483648", "0.0000001", "1e9", "९"];
+
+/// random token soup over Ink's punctuation and keywords
+pub fn token_soup(t: &mut Tape) -> String {
+    let n = 1 + t.pick(60);
+    let mut s = String::new();
+    for _ in 0..n {
+        match t.pick(10) {
+            0 | 1 | 2 | 3 | 4 => s.push_str(TOKENS[t.pick(TOKENS.len())]),
+            5 | 6 => s.push_str(IDENTS[t.pick(IDENTS.len())]),
+            7 => s.push_str(LITS[t.pick(LITS.len())]),
+            8 => s.push('\n'),
+            _ => s.push_str("word"),
+        }
+        match t.pick(4) {
+            0 => {}
+            1 | 2 => s.push(' '),
+            _ => s.push('\n'),
+        }
+    }
+    s
+}
+
+const ODD_CHARS: &[char] = &['é', '\u{301}', '😀', '\r', '\0', '\u{2028}', '\t', '{', '}', '[', ']', '(', ')', '|', '"', '\\', '-', '>', '<', '*', '+', '=', '~', '#', ':', '/', '\u{feff}', '日'];
+
+/// character/line level mutation of an Ink source
+pub fn mutate_source_text(src: &str, other: &str, t: &mut Tape) -> (String, String) {
+    let mut chars: Vec<char> = src.chars().collect();
+    let mut what = vec![];
+    let n = 1 + t.pick(4);
+    for _ in 0..n {
+        match t.pick(12) {
+            0 => {
+                // byte flip (through lossy utf-8)
+                let mut b: Vec<u8> = chars.iter().collect::<String>().into_bytes();
+                if !b.is_empty() {
+                    let i = t.pick(b.len());
+                    b[i] ^= 1 << t.pick(8);
+                }
+                chars = String::from_utf8_lossy(&b).chars().collect();
+                what.push("byte-flip");
+            }
+            1 => {
+                let i = t.pick(chars.len() + 1);
+                chars.insert(i, ODD_CHARS[t.pick(ODD_CHARS.len())]);
+                what.push("insert-char");
+            }
+            2 => {
+                if !chars.is_empty() {
+                    let i = t.pick(chars.len());
+                    chars.remove(i);
+                }
+                what.push("delete-char");
+            }
+            3 => {
+                if !chars.is_empty() {
+                    let i = t.pick(chars.len());
+                    let c = chars[i];
+                    chars.insert(i, c);
+                }
+                what.push("dup-char");
+            }
+            4 | 5 | 6 => {
+                let s: String = chars.iter().collect();
+                let mut lines: Vec<&str> = s.split('\n').collect();
+                if !lines.is_empty() {
+                    let i = t.pick(lines.len());
+                    match t.pick(3) {
+                        0 => {
+                            lines.remove(i);
+                        }
+                        1 => {
+                            let l = lines[i];
+                            lines.insert(i, l);
+                        }
+                        _ => {
+                            let j = t.pick(lines.len());
+                            lines.swap(i, j);
+                        }
+                    }
+                }
+                chars = lines.join("\n").chars().collect();
+                what.push("line-op");
+            }
+            7 => {
+                // splice with another source
+                let o: Vec<char> = other.chars().collect();
+                let cut_a = t.pick(chars.len() + 1);
+                let cut_b = t.pick(o.len() + 1);
+                chars.truncate(cut_a);
+                chars.extend_from_slice(&o[cut_b..]);
+                what.push("splice");
+            }
+            8 => {
+                let i = t.pick(chars.len() + 1);
+                let open = ['{', '[', '(', '"'][t.pick(4)];
+                let depth = [1usize, 3, 30, 300][t.pick(4)];
+                for _ in 0..depth {
+                    chars.insert(i, open);
+                }
+                what.push("open-brackets");
+            }
+            9 => {
+                let i = t.pick(chars.len() + 1);
+                let long: Vec<char> = "lorem ipsum ".repeat([10usize, 200, 3000][t.pick(3)]).chars().collect();
+                for (k, c) in long.into_iter().enumerate() {
+                    chars.insert(i + k, c);
+                }
+                what.push("long-line");
+            }
+            10 => {
+                let inc = ["INCLUDE nothing.ink\n", "INCLUDE <source>\n", "INCLUDE \n", "INCLUDE ../../../etc/passwd\n"][t.pick(4)];
+                let i = 0;
+                for (k, c) in inc.chars().enumerate() {
+                    chars.insert(i + k, c);
+                }
+                what.push("include");
+            }
+            _ => {
+                // rename one identifier occurrence to an unknown name
+                let s: String = chars.iter().collect();
+                let words: Vec<(usize, &str)> = s
+                    .match_indices(|c: char| c.is_alphanumeric() || c == '_')
+                    .map(|(i, _)| i)
+                    .fold(vec![], |mut acc: Vec<(usize, usize)>, i| {
+                        if let Some(last) = acc.last_mut() {
+                            if last.1 == i {
+                                last.1 = i + s[i..].chars().next().map(|c| c.len_utf8()).unwrap_or(1);
+                                return acc;
+                            }
+                        }
+                        acc.push((i, i + s[i..].chars().next().map(|c| c.len_utf8()).unwrap_or(1)));
+                        acc
+                    })
+                    .into_iter()
+                    .map(|(a, b)| (a, &s[a..b]))
+                    .collect();
+                if !words.is_empty() {
+                    let (pos, w) = words[t.pick(words.len())];
+                    let repl = format!("{}{}", &s[..pos], "zz_unknown");
+                    let rest = &s[pos + w.len()..];
+                    chars = format!("{repl}{rest}").chars().collect();
+                }
+                what.push("rename-identifier");
+            }
+        }
+    }
+    (chars.into_iter().collect(), what.join("+"))
+}
